@@ -71,6 +71,7 @@ where
         collect_dense: bool,
         first_step: Option<Float>,
         x0: Float,
+        span: Float,
         n_states: usize,
     ) -> Self {
         let n_events = ode.n_events();
@@ -83,7 +84,9 @@ where
             ode,
             t_eval,
             next_idx: 0,
-            tol: 1e-12,
+            // 1e-12 for intervals of length >= 1, proportionally less for shorter ones: on an interval of
+            // length 1e-12 an absolute slack of 1e-12 matched every requested time with x0
+            tol: 1e-12 * span.abs().min(1.0),
             t: Vec::new(),
             y: Vec::new(),
             t_events: vec![Vec::new(); n_events],
